@@ -651,7 +651,8 @@ def scenarios(tier):
         for k in range(0, n - 1):
             if market == "deribit":
                 continue
-            out.append(Scenario(f"{market}/n{n}/k{k}", lookahead, params=dict(market=market, bars=n, k=k), shadows=shadows, entry=("Actuator.run",), canary="CANARY the run records nothing for bars <= k" if k == 1 else None, **kw))
+            kwm = dict(kw, time_budget_s=120, query_timeout_ms=5000) if market == "gmx2" else kw  # float pool maths: non-linear once a future row leaks in
+            out.append(Scenario(f"{market}/n{n}/k{k}", lookahead, params=dict(market=market, bars=n, k=k), shadows=shadows, entry=("Actuator.run",), canary="CANARY the run records nothing for bars <= k" if k == 1 else None, **kwm))
     for hole in (False, True):
         n = 3 if tier == "quick" else 4
         for k in range(0, n - 1):
